@@ -163,7 +163,7 @@ FormatLaws == On("fmt") => \A ti \in 1..Len(Tods) :
     /\ Len(Dt2Str(<<"str", <<"i","s","o">>>>, c)) = (IF c[7] = 0 THEN 19 ELSE 26)
     \* numbers are written in full: reading the digits back gives the field
     /\ NumVal(SubSeq(Dt2Str(<<"str", <<"Y","m","d","H","M","S">>>>, c), 9, 14)) = c[4] * 10000 + c[5] * 100 + c[6]
-    /\ NumVal(Dt2Str(<<"str", <<"j">>>> \o <<>>, c)) = NumVal(Dt2Str(<<"str", <<"%","j">>>>, c))       \* (one character is a separator, not a field)
+    /\ Dt2Str(<<"str", <<"j">>>>, c) = NumChars(c[1], 4) \o <<"j">> \o NumChars(c[2], 2) \o <<"j">> \o NumChars(c[3], 2)      \* one character is a separator, never a field
     /\ NumVal(Dt2Str(<<"str", <<"%","j">>>>, c)) = a - OrdOf(c[1], 1, 1) + 1
     /\ \A L \in {LL \in Layouts : LL.sep = "-" \/ LL.order = "ymd"} :
          LET f == LayoutFormat(L) IN
@@ -171,7 +171,7 @@ FormatLaws == On("fmt") => \A ti \in 1..Len(Tods) :
          /\ Tokens(Percent(f)) = Tokens(f)                                                 \* the bare and the '%' way of writing a format
          /\ Dt2Str(<<"str", Percent(f)>>, c) = Dt2Str(<<"str", f>>, c)
          \* what comes back is what C04 says the written integers denote (numeric months, a time of day that C04 knows)
-         /\ (L.mon = "m" /\ L.time # "HM") =>
+         /\ (L.mon = "m" /\ L.time # "HM" /\ c[1] \in D!FirstYear..D!LastYear) =>
                \A dl \in DialectsOf(L) : D!Denote(IF L.order = "ymd" THEN "iso_str" ELSE "numeric_str", WrittenInts(L, c), dl) = ReadBack(L, c)
          /\ (L.time = "HMSf") => ReadBack(L, c) = SpecialReadBack(<<"none">>, c)
 
